@@ -85,7 +85,10 @@ func (t *bpTunnel) take(d time.Duration) bool {
 	case p := <-t.writes:
 		b := append([]byte(nil), p...)
 		t.h.do(func() { t.out = append(t.out, b...); t.done++ })
-		t.taken <- struct{}{}
+		select {
+		case t.taken <- struct{}{}:
+		case <-t.closedCh: // the writer has already left through the closed tunnel
+		}
 		return true
 	case <-time.After(d):
 		return false
